@@ -22,7 +22,7 @@ for d in seeded/*/; do
 import json,sys
 m=json.load(open('$d/meta.json'))
 for c in m['caught_by']: print(c['check'], c['tier'].split()[0])")
-  git -C /repo checkout -q -- .
+  git -C /repo checkout -q -- . ; git -C /repo clean -fdq -- src tests
   echo "$id:$res"
 done
 find replays -name '*.json' -delete
